@@ -23,6 +23,6 @@ Your job: make ONE realistic change to the library source under {wt}/fpy2 that B
 
 Deliver, in {out}/ (create it):
 1. patch.diff — `git -C {wt} diff` of your change (source only).
-2. demo.py — a small self-contained program (or pytest file) that exits non-zero / fails WITH your change and exits 0 / passes WITHOUT it (test both: `git -C {wt} stash` / `stash pop`), run as `PYTHONPATH={wt} /venv/bin/python {out}/demo.py`.
+2. demo.py — a small self-contained program (or pytest file) that exits non-zero / fails WITH your change and exits 0 / passes WITHOUT it (test both ways with `git -C {wt} diff > /tmp/p.diff; git -C {wt} apply -R /tmp/p.diff; …; git -C {wt} apply /tmp/p.diff` — do NOT use `git stash`: the stash is shared by all worktrees of the repository and other agents are using it), run as `PYTHONPATH={wt} /venv/bin/python {out}/demo.py`.
 3. meta.json — {{"property": "{pid}", "summary": one line, "what_it_needs_to_manifest": …, "files_changed": […], "suite_result": the pytest summary line you observed with the change, "flaky_reruns": what you reran}}.
 Do not commit in the worktree. Never use pkill/killall (other agents share this machine): kill only your own processes, by PID. Your final answer: 5-10 lines describing the change, what triggers it, and the exact suite/demo results.""")
